@@ -237,7 +237,7 @@ def check_pure(ctx):
     ctx.rule(R, "the diagnostics only read their arguments: no in-place update (augmented assignment on a view, element / column store, out=, mutating method) reaches "
                 "the sample table or the data object, so the row handed back carries the values that were maximised and a second call sees the same input.")
     n = 0
-    for q in ("MAP_sample", "max_phase_gap", "phase_coverage", "periods_spanned", "phase_coverage_per_period"):
+    for q in ("MAP_sample", "is_P_unimodal", "is_P_Kmodal", "max_phase_gap", "phase_coverage", "periods_spanned", "phase_coverage_per_period"):
         fn = ctx.prog.func(SA, q, R)
         params = set(A.param_names(fn))
         # a parameter re-bound to a fresh value is no longer the caller's object; writes are judged against the received objects only
@@ -245,7 +245,7 @@ def check_pure(ctx):
         ws = [(node, why) for node, why in ws if not (isinstance(node, ast.AugAssign) and isinstance(node.target, ast.Name) and node.target.id in params and _scalar_param(fn, node.target.id))]
         n += 1
         ctx.check(R, ws[0][0] if ws else fn, "%s leaves its arguments untouched" % q, not ws, ws[0][1] if ws else "", key=q)
-    ctx.floor(R, n, 5)
+    ctx.floor(R, n, 7)
 
 
 def _scalar_param(fn, name):
@@ -262,4 +262,10 @@ def run(ctx):
     check_gap(ctx)
     check_forms(ctx)
     check_pure(ctx)
+    from .C07 import _Relabel
+    from .C15 import check_lock, check_tref
+    ctx.rule("C19-DATA", "order independence rests on RVData: rows are time-sorted on every construction path (also clean=False) and the default reference epoch is the "
+                         "minimum time, not the first given (shared with C15-LOCK / C15-TREF).")
+    check_lock(_Relabel(ctx, {"C15-LOCK": "C19-DATA"}))
+    check_tref(_Relabel(ctx, {"C15-TREF": "C19-DATA"}))
     ctx.assume("np.sort / np.histogram / min / max are invariant under permutations of their input; RVData.phase = ((t - t_ref)/P) mod 1 (C15-TREF)")
